@@ -309,6 +309,27 @@ def check_table(ctx, case):
             else:
                 continue
             break
+    # (g) a merge that is REFUSED (conflicting reference value, overwrite not allowed) leaves the correlation exactly as it was:
+    # same data, and the data still reproduced by the evaluation
+    from vlib import thermogen as TG
+    for name in ('group', 'yaml'):
+        obj = objs.get(name)
+        if obj is None or name not in allres:
+            continue
+        status, before, after = TG.refused_update(obj, dict(H=H, S=S, Ts=list(Ts), Cps=list(Cps), T_ref=T_ref, range=list(rng)))
+        ctx.count()
+        ctx.event('refused-update:%s' % status)
+        if status != 'refused':
+            ctx.fail('conflicting-update-not-refused:%s' % status, '[%s] update with a conflicting H_ref (no overwrite): %s' % (name, status))
+            continue
+        if before != after:
+            ctx.fail('refused-update-changed-the-data', '[%s] data before %s, after the refused update %s' % (name, before, after))
+            continue
+        bad = [(T, cp, obj.get_CpoR(T)) for T, cp in sorted(obj.ND_Cp_data.items()) if not close(obj.get_CpoR(T), cp, 1e-9 * max(1.0, abs(cp)))]
+        if bad or not close(obj.get_HoRT(T_ref), H, 1e-12 * max(1.0, abs(H))) or any(
+                not close(obj.get_CpoR(T), allres[name][2][T], 1e-12 * max(1.0, abs(allres[name][2][T]))) for T in pts):
+            ctx.fail('refused-update-changed-the-correlation', '[%s] after a refused update: tabulated points not reproduced %s, HoRT(T_ref)=%r (H_ref %r)'
+                     % (name, bad[:3], obj.get_HoRT(T_ref), H))
     tref_out = not (Ts[0] < T_ref < Ts[-1])
     nontriv = n >= 2 and (total_straddle > 0 or tref_out or not is_sorted)
     ctx.case(nontrivial=nontriv, key=[Ts, Cps, T_ref, H, S, list(rng), order], evals=len(objs) * len(pts),
@@ -327,6 +348,16 @@ def enum_shipped(tier):
             yield dict(kind='shipped', lib=L, group=k)
 
 
+def rng_lo(g, Ts):
+    r = g.get_range()
+    return r[0] if r is not None else Ts[0]
+
+
+def rng_hi(g, Ts):
+    r = g.get_range()
+    return r[1] if r is not None else Ts[-1]
+
+
 def check_shipped(ctx, case):
     m = _pg()
     L = lib(case['lib'])
@@ -343,6 +374,27 @@ def check_shipped(ctx, case):
     if not all(isinstance(c, (int, float, np.floating)) for c in Cps + [g.T_ref]):
         ctx.event('shipped:non-numeric-data(C14)')
         return
+    # the table as WRITTEN in the data files (read with plain YAML, not by the library loader): every row of it is a
+    # tabulated point the correlation must reproduce, and no temperature is listed twice
+    from vlib import shipped as SH
+    raw = SH.raw_cp_tables(case['lib']).get(case['group'])
+    if raw:
+        ctx.event('shipped:table-read-from-file')
+        for fn, T in raw['duplicates']:
+            ctx.fail('shipped-table-lists-a-temperature-twice', '[%s/%s] %s lists T=%r twice in one Cp table: the loader keeps one row, the other tabulated point is lost'
+                     % (case['lib'], case['group'], fn, T))
+        if len({r[0] for r in raw['rows']}) != len(Ts):
+            ctx.fail('shipped-table-size', '[%s/%s] files %s hold %d distinct temperatures, the loaded group %d'
+                     % (case['lib'], case['group'], raw['files'], len({r[0] for r in raw['rows']}), len(Ts)))
+        for T, v, u in raw['rows']:
+            if u is None or not (rng_lo(g, Ts) <= T <= rng_hi(g, Ts)):
+                continue
+            ctx.count()
+            got = g.get_CpoR(T) if u == 'nd' else g.get_Cp(T, u)
+            if not close(got, v, 2e-5 * max(1e-3, abs(v))):
+                ctx.fail('shipped-file-row-not-reproduced', '[%s/%s] the file says Cp(%r K) = %r %s, the loaded correlation gives %r'
+                         % (case['lib'], case['group'], T, v, '' if u == 'nd' else u, got))
+                break
     rng = g.get_range() or (Ts[0], Ts[-1])
     H = g.ND_H_ref if g.ND_H_ref is not None else 0.0
     S = g.ND_S_ref if g.ND_S_ref is not None else 0.0
